@@ -510,6 +510,54 @@ def check_two_cookies(acc, part=0, nparts=1):
     acc.outcome('two-cookies')
 
 
+def check_dev_server_clients(acc):
+    """Two clients talking to one running development server (one server object, the environ of every request built
+    by its request handler): a client that sends no cookie is presented an empty one, whatever the client before it
+    sent; a client's own cookie is presented to it.  All orders of {A with cookie, B without, B with its own}."""
+    import itertools
+    from clastic import Application
+    from clastic.middleware.cookie import SignedCookieMiddleware
+    from werkzeug.wrappers import Response
+
+    def ep(cookie, request):
+        before = dict(cookie)
+        if request.args.get('v'):
+            cookie['who'] = request.args['v']
+        return Response(json.dumps(before, sort_keys=True), status=201)
+    for expiry in (0, EXPIRY):
+        app = Application([('/', ep)], middlewares=[SignedCookieMiddleware(secret_key=KEY, expiry=expiry)])
+        server = wsgi.DevServer(app)
+        try:
+            jars = {}
+            for name in ('A', 'B'):
+                res = wsgi.call(app, None, environ=server.environ('/', query='v=' + name))
+                for sc in res.header_all('Set-Cookie') if res.headers else ():
+                    nm, _, rest = sc.partition('=')
+                    jars[name] = '%s=%s' % (nm, rest.split(';', 1)[0])
+            if len(jars) != 2:
+                acc.violation('C16:dev-server:no-cookie', 'no cookie issued through the development server environ: %r' % (jars,), {'dev_server_clients': True})
+                return
+            steps = [('A', True), ('B', False), ('B', True), ('A', False)]
+            for order in itertools.permutations(steps, 3):
+                for who, with_cookie in order:
+                    hdrs = {'Cookie': jars[who], 'X-Client': who} if with_cookie else {'User-Agent': 'client-' + who}
+                    res = wsgi.call(app, None, environ=server.environ('/', headers=hdrs))
+                    acc.transitions += 1
+                    acc.validated += 1
+                    got = json.loads(res.body.decode('utf-8')) if res.code == 201 else None
+                    if got is not None:
+                        got.pop('_expires', None)
+                    want = {'who': who} if with_cookie else {}
+                    if got != want:
+                        acc.violation('C16:dev-server:presented', 'one development server, requests %r: client %s (%s cookie) was presented %r '
+                                      '(status %s), expected %r' % (order, who, 'with its' if with_cookie else 'without a', got, res.status, want),
+                                      {'dev_server_clients': True})
+                        return
+        finally:
+            server.close()
+    acc.outcome('dev-server-clients')
+
+
 def check_sibling_cookie_apps(acc):
     """Two applications, each with a SignedCookieMiddleware of its own (own secret, own expiry), embedded side by side
     in one parent - in both orders, with the same and with different cookie names: each keeps verifying with its own
@@ -577,6 +625,8 @@ def shard(tier, i, n, seed):
     check_two_cookies(acc, i, n)
     if i == 5 % n:
         check_sibling_cookie_apps(acc)
+    if i == 6 % n:
+        check_dev_server_clients(acc)
     return acc
 
 
@@ -601,6 +651,10 @@ def replay(case):
 
 def _replay(case):
     common.setup_repo()
+    if case.get('dev_server_clients'):
+        acc = common.Acc()
+        check_dev_server_clients(acc)
+        return (False, acc.violations[0]['desc']) if acc.violations else (True, 'ok')
     if case.get('sibling_cookie_apps'):
         acc = common.Acc()
         check_sibling_cookie_apps(acc)
